@@ -3,6 +3,7 @@ From Coq Require Import List Bool ZArith Lia.
 Require Export LE Varint C10_Model.
 Require Export C10_Monitor.
 Require Import C10_Codec C10_Proofs C10_Stream.
+Require Export C10_Large.
 Import ListNotations.
 Open Scope Z_scope.
 
@@ -18,6 +19,8 @@ Open Scope Z_scope.
             end) and looks at the kept values again: now = the outcomes as they read then
    CStream  the read operations on NewReaderX(source delivering the chunks; eofl = last data comes with io.EOF) and on
             NewReadableBufferX(concat chunks); what the source / the buffer still hold afterwards *)
+(* CLarge   like CStream for values of 64 KiB and more: the source bytes are segments (literal, or n bytes of the generator of
+            C10_Large.v), the chunks are given by their sizes, and every observed byte string is given by its digest *)
 Inductive case :=
   | CHist (init : list Z) (ops : list op) (obs : list outcome) (final : list Z)
   | CHold (init : list Z) (ops : list op) (obs : list outcome) (final : list Z) (now : list outcome)
@@ -25,7 +28,9 @@ Inductive case :=
   | CTrunc (ws : list op) (total cut : Z) (obs : list outcome)
   | CReWrite (b0 : list Z) (o : op) (out : outcome) (b1 : list Z)
   | CStream (chunks : list (list Z)) (eofl : bool) (ops : list op)
-            (obs_r : list outcome) (rest_r : list Z) (obs_b : list outcome) (rest_b : list Z).
+            (obs_r : list outcome) (rest_r : list Z) (obs_b : list outcome) (rest_b : list Z)
+  | CLarge (segs : list seg) (sizes : list Z) (eofl : bool) (ops : list op)
+           (obs_r : list dout) (rest_r : dout) (obs_b : list dout) (rest_b : dout).
 
 (* ---------------- accept: the implementation did exactly what the model does ---------------- *)
 Definition case_accept (c : case) : bool :=
@@ -46,6 +51,12 @@ Definition case_accept (c : case) : bool :=
       forallb stream_op ops && forallb byte_okb (concat chunks)
       && (let '(o, s) := rrun (chunks, eofl) ops in outs_eqb o obs_r && zl_eqb (src_bytes s) rest_r)
       && (let '(o, f) := brun (concat chunks) ops in outs_eqb o obs_b && zl_eqb f rest_b)
+  | CLarge segs sizes eofl ops obs_r rest_r obs_b rest_b =>
+      let data := expand segs in
+      forallb stream_op ops && forallb byte_okb data
+      && (let '(o, s) := rrun (split_sizes sizes data, eofl) ops in
+          douts_eqb (map dig o) obs_r && dout_eqb (dig (OBytes (src_bytes s))) rest_r)
+      && (let '(o, f) := brun data ops in douts_eqb (map dig o) obs_b && dout_eqb (dig (OBytes f)) rest_b)
   end.
 
 (* ---------------- holds: the clauses of the property on the observed behaviour ---------------- *)
@@ -57,11 +68,13 @@ Definition case_holds (c : case) : bool :=
   | CTrunc ws total cut obs => trunc_ok ws total cut obs
   | CReWrite b0 o out b1 => rewrite_ok b0 o out b1
   | CStream chunks eofl ops obs_r rest_r obs_b rest_b => stream_ok obs_r rest_r obs_b rest_b
+  | CLarge segs sizes eofl ops obs_r rest_r obs_b rest_b => large_ok obs_r rest_r obs_b rest_b
   end.
 
 Theorem case_sound : forall c, case_accept c = true -> case_holds c = true.
 Proof.
-  intros [init ops obs final | init ops obs final now | ws obs | ws total cut obs | b0 o out b1 | chunks eofl ops obs_r rest_r obs_b rest_b];
+  intros [init ops obs final | init ops obs final now | ws obs | ws total cut obs | b0 o out b1 | chunks eofl ops obs_r rest_r obs_b rest_b
+          | segs sizes eofl ops obs_r rest_r obs_b rest_b];
     cbn [case_accept case_holds]; intros H.
   - destruct (brun init ops) as [o f] eqn:E. apply andb_prop in H as [H1 _]. apply outs_eqb_eq in H1. rewrite <- H1.
     replace o with (fst (brun init ops)) by now rewrite E. apply hist_sound.
@@ -79,4 +92,9 @@ Proof.
     apply andb_prop in Hr as [Hr1 Hr2]. apply andb_prop in Hb as [Hb1 Hb2].
     apply outs_eqb_eq in Hr1, Hb1. apply zl_eqb_eq in Hr2, Hb2. rewrite <- Hr1, <- Hr2, <- Hb1, <- Hb2.
     now apply (stream_sound chunks eofl ops o s o2 f).
+  - cbv zeta in H. apply andb_prop in H as [H Hb]. apply andb_prop in H as [H Hr]. apply andb_prop in H as [Hs Hk].
+    pose proof (large_sound (expand segs) sizes eofl ops Hs Hk) as L.
+    destruct (rrun (split_sizes sizes (expand segs), eofl) ops) as [o s]. destruct (brun (expand segs) ops) as [o2 f].
+    apply andb_prop in Hr as [Hr1 Hr2]. apply andb_prop in Hb as [Hb1 Hb2].
+    apply douts_eqb_eq in Hr1, Hb1. apply dout_eqb_eq in Hr2, Hb2. rewrite <- Hr1, <- Hr2, <- Hb1, <- Hb2. exact L.
 Qed.
